@@ -242,6 +242,29 @@ pub fn run(tier: Tier) -> i32 {
             jobs.push((sp, dv.clone()));
         }
     }
+    // extra identifiers with names YAML or the tokeniser treat specially (never referenced by the
+    // condition), and the YAML merge key
+    for name in ["<<", "a b", "é", "*x", "&a", "A.B", "and", "not", "all(A)", "1a", "~x", "=", "?", "-", "condition2", "true_positives"] {
+        jobs.push((
+            RuleSpec {
+                idents: vec![
+                    ("A".into(), Body::Map(vec![e("f", st("a*"))])),
+                    (name.into(), Body::Map(vec![e("g", st("x"))])),
+                ],
+                cond: "A".into(),
+            },
+            vec![MObj::new().with("f", s("ab")).with("g", s("x")), MObj::new().with("g", s("x"))],
+        ));
+        // the special name as a key inside an identifier and inside a nested block
+        jobs.push((
+            RuleSpec::one(Body::Seq(vec![vec![e("f", st("a*"))], vec![e(name, st("x"))]])),
+            vec![MObj::new().with(name, s("x")), MObj::new().with("f", s("ab"))],
+        ));
+        jobs.push((
+            RuleSpec::one(Body::Map(vec![e("n", map(vec![e(name, map(vec![e("x", st("a"))]))]))])),
+            vec![MObj::new().with("n", crate::mdoc::obj(vec![(name, crate::mdoc::obj(vec![("x", s("a"))]))]))],
+        ));
+    }
     let uni: Vec<RuleSpec> = gen::universe(0).into_iter().step_by(if th { 2 } else { 11 }).collect();
     for sp in uni {
         jobs.push((sp, vec![]));
@@ -253,6 +276,7 @@ pub fn run(tier: Tier) -> i32 {
         ("[{f: x}]", "[{f: '1', g: 1, h: 1.0, i: true, j: null, k: '~', l: 'a: b'}]"),
         ("[{n: {x: [a, {y: '*'}]}}, {}]", "[{f: \"multi\\nline\"}, {'é': '日本'}]"),
         ("[foo, 1, null]", "[[a], true]"),
+        ("[{'<<': {f: x}, g: y}, {f: ab}]", "[{'<<': [{a: 1}, {b: 2}]}, {'<<': 1}]"),
     ]
     .iter()
     .map(|(a, b)| (serde_yaml::from_str::<Y>(a).unwrap(), serde_yaml::from_str::<Y>(b).unwrap()))
